@@ -135,6 +135,12 @@ class HttpxTransport:
         # 2. Merge headers passed specifically for this request (overriding transport defaults)
         if "headers" in current_request_kwargs and isinstance(current_request_kwargs["headers"], dict):
             for header_name, header_value in current_request_kwargs["headers"].items():
+                # httpx only accepts str/bytes header values; integer, number and boolean header
+                # parameters arrive here as Python values and are rendered the way httpx renders query values
+                if isinstance(header_value, bool):
+                    header_value = "true" if header_value else "false"
+                elif not isinstance(header_value, (str, bytes)):
+                    header_value = str(header_value)
                 set_header(prepared_headers, header_name, header_value)
 
         # 3. Apply authentication plugin or bearer token (which can further modify headers)
